@@ -88,7 +88,7 @@ func selftestDeterminism(props []string, seeds int) int {
 			bins = append(bins, struct {
 				bin string
 				env []string
-			}{rb.Bin, []string{"VERIF_REPO=" + repoRoot, "VERIF_NO_RLIMIT=1", "VERIF_RACE_LOG=" + raceLog, "GORACE=log_path=" + raceLog + " halt_on_error=0"}})
+			}{rb.Bin, []string{"VERIF_REPO=" + repoRoot, "VERIF_NO_RLIMIT=1", "VERIF_RACE_LOG=" + raceLog, "GORACE=log_path=" + raceLog + " halt_on_error=0", "VERIF_SITES=" + filepath.Join(verifRoot, "build", prop+"-race", "sites.json")}})
 		}
 		cases := selftestCases[prop]
 		total, diverged := 0, 0
